@@ -57,6 +57,14 @@ def gen(pid, tier, seed):
             L += ["T %d %s" % (t, b) for b in body]
         L.append("X")
         scripts.append("\n".join(L) + "\n")
+    # loops torn down (iv_deinit, or thread exit) with many timers still registered
+    for i, cnt in enumerate([100, 127, 128, 129, 300, 1000, 20000] if tier == "quick" else [100, 127, 128, 129, 130, 255, 256, 300, 1000, 16383, 16384, 16385, 20000]):
+        m = rnd.choice(coregen.METHODS)
+        scripts.append("\n".join(["B C18b%d.%d method=%s seed=1 maxwait=30 memrec=1" % (seed, i, m), "O tm 1", "O tm 2",
+                                  "S tm_bulk 2 %d 1000" % cnt, "S tm_reg 1 1 0 1000", "R tm 1 0 1 quit", "X"]) + "\n")
+        scripts.append("\n".join(["B C18bt%d.%d method=%s seed=1 maxwait=30 memrec=1" % (seed, i, m), "O tm 1", "O tm 2",
+                                  "S thr_create 1", "T 1 iv_init", "T 1 tm_bulk 2 %d 1000" % cnt, "T 1 tm_reg 1 1 0 1000",
+                                  "R tm 1 0 1 quit", "T 1 iv_main"] + (["T 1 iv_deinit"] if i % 2 else []) + ["X"]) + "\n")
     return scripts
 
 
